@@ -28,7 +28,7 @@ let run () = iter_lines (fun line ->
       (match split_on ' ' head with
        | [n; stream] ->
          let n = int_of_string n and stream = bytes_of_hex stream in
-         let m = split_outputs stream in
+         let m = split_outputs salt stream in
          let show outs = if outs = [] then "-" else String.concat "," (List.map (fun (p, c) -> Printf.sprintf "%d:%s" (int_of_z c) (hex_of_bytes p)) outs) in
          let skip = (match m with Some outs -> List.exists (fun (_, c) -> int_of_z c = 80) outs | None -> false) in
          let want = (match m with Some outs when List.length outs = n && not skip -> show outs | _ -> "err") in
